@@ -56,15 +56,17 @@ def install_props_hook(ctx):
         if registry is None:
             registry = Nil
         orig_init(self, registry, *a, **kw)
-        try:
-            self.__dict__["_rv_fp"] = shallow_fp(self._registry)
-            self.__dict__["_rv_reg"] = self._registry
-        except Exception:
-            pass
+        # the baseline is taken at the first access, not here: a constructor / factory may still fill the registry
 
     def get(self, name, *a, **kw):
         fp = self.__dict__.get("_rv_fp")
-        if fp is not None:
+        if fp is None:
+            try:
+                self.__dict__["_rv_fp"] = shallow_fp(self._registry)
+                self.__dict__["_rv_reg"] = self._registry
+            except Exception:
+                pass
+        else:
             ctx.count("probe_props_frozen")
             if self._registry is not self.__dict__.get("_rv_reg") or shallow_fp(self._registry) != fp:
                 ctx.violation("probe:props_registry_mutated_in_place", {
@@ -123,7 +125,7 @@ def probes_for(schema, rng):
             vals.extend(p for p, _ in ps)
     except Exception:
         pass
-    return vals + GENERIC[:6]
+    return vals + GENERIC[:9]   # shared objects on purpose: the same value object meets many schemas
 
 
 def native_model(v):
@@ -238,7 +240,9 @@ class History:
         st = singleton_state()
         self.ctx.count("singleton_checks")
         if st != self.singletons:
-            self.ctx.violation("visitor_singleton_state_changed", {"after_op": opdesc, "history_tail": list(self.ctx._tail)})
+            # internal state of a visitor object is not observable by itself (a correct implementation may cache);
+            # it is recorded, and every *behavioural* consequence shows in the pool re-checks above
+            self.ctx.table("singleton_state_changes(informational)", opdesc.split("(")[0][:40])
             self.singletons = st
 
     # -- running one op with argument protection ---------------------------------------------
